@@ -210,13 +210,14 @@ Proof.
   assert (V2 : mview m2 = mview m) by (unfold m2; rewrite mview_chk; exact V1).
   assert (V3 : mview m3 = mview m) by (unfold m3; rewrite mview_chk; exact V2).
   assert (V4 : mview m4 = mview m) by (unfold m4; rewrite mview_chk; exact V3).
-  assert (V5 : mview m5 = mview m).
-  { unfold m5. destruct (slept && negb (a_stale m4)); [|exact V4].
-    destruct (min_expiry m4); [|exact V4]. cbv zeta. rewrite !mview_chk. exact V4. }
-  assert (V6 : mview m6 = mview m) by (unfold m6; rewrite mview_chk; exact V5).
-  assert (V7 : mview m7 = mview m) by (unfold m7; rewrite mview_m_wait; exact V6).
-  rewrite mview_m_iter. unfold m9. rewrite mview_m_spin. unfold m8. clearbody m7.
-  destruct (mview_fields m7 m V7) as (Q1 & Q2 & Q3 & Q4 & Q5 & Q6 & Q7 & Q8 & Q9 & Q10 & Q11 & Q12).
+  assert (V5 : mview m5 = mview m) by (unfold m5; rewrite mview_chk; exact V4).
+  assert (V6 : mview m6 = mview m).
+  { unfold m6. destruct (slept && negb (a_stale m5)); [|exact V5].
+    destruct (min_expiry m5); [|exact V5]. cbv zeta. rewrite !mview_chk. exact V5. }
+  assert (V7 : mview m7 = mview m) by (unfold m7; rewrite mview_chk; exact V6).
+  assert (V8 : mview m8 = mview m) by (unfold m8; rewrite mview_m_wait; exact V7).
+  rewrite mview_m_iter. unfold m10. rewrite mview_m_spin. unfold m9. clearbody m8.
+  destruct (mview_fields m8 m V8) as (Q1 & Q2 & Q3 & Q4 & Q5 & Q6 & Q7 & Q8 & Q9 & Q10 & Q11 & Q12).
   unfold mview. cbn [a_fd a_fh a_ck a_tm a_exp a_tk a_ev a_evp a_rw a_main a_quit a_clk m_loop].
   rewrite Q1, Q2, Q3, Q4, Q5, Q6, Q7, Q8, Q9, Q10, Q11. reflexivity.
 Qed.
@@ -355,15 +356,16 @@ Proof.
   assert (G2 : Goodm m2) by (unfold m2; gstep; assumption).
   assert (G3 : Goodm m3) by (unfold m3; gstep; assumption).
   assert (G4 : Goodm m4) by (unfold m4; gstep; assumption).
-  assert (V4 : a_clk m4 = a_clk m) by (unfold m4, m3, m2, m1, m0; autorewrite with monp; reflexivity).
-  assert (G5 : Goodm m5 /\ a_clk m5 = a_clk m).
-  { unfold m5. destruct (slept && negb (a_stale m4)); [|split; assumption].
-    destruct (min_expiry m4); [|split; assumption]. cbv zeta.
-    split; [repeat gstep; assumption|autorewrite with monp; exact V4]. }
-  destruct G5 as [G5 V5].
-  assert (G6 : Goodm m6).
-  { unfold m6. apply Goodm_chk_true; [assumption|]. rewrite V5. apply Z.leb_le. assumption. }
-  unfold m9, m8, m7. clearbody m6.
+  assert (G5 : Goodm m5) by (unfold m5; gstep; assumption).
+  assert (V5 : a_clk m5 = a_clk m) by (unfold m5, m4, m3, m2, m1, m0; autorewrite with monp; reflexivity).
+  assert (G6 : Goodm m6 /\ a_clk m6 = a_clk m).
+  { unfold m6. destruct (slept && negb (a_stale m5)); [|split; assumption].
+    destruct (min_expiry m5); [|split; assumption]. cbv zeta.
+    split; [repeat gstep; assumption|autorewrite with monp; exact V5]. }
+  destruct G6 as [G6 V6].
+  assert (G7 : Goodm m7).
+  { unfold m7. apply Goodm_chk_true; [assumption|]. rewrite V6. apply Z.leb_le. assumption. }
+  unfold m10, m9, m8. clearbody m7.
   repeat gstep. assumption.
 Qed.
 
